@@ -54,21 +54,21 @@ def gen(rs, tier, index):
     seqk = [KINDS[k] for k in ('Reg', 'Counter', 'DelayLine', 'TReg', 'MooreAcc')]      # MooreAcc: a leaf with clock() and propagate()
     scn = {'mode': 'acyclic'}
     bulk = rng.random()
-    if bulk < (0.004 if tier == 'quick' else 0.0015):
+    if bulk < (0.002 if tier == 'quick' else 0.0015):
         # bulk: thousands of leaves in a shuffled instantiation order
-        nb = rng.choice([1100, 2100, 4200, 5000, 9000, 9000, 17000] if tier == 'quick' else [4200, 9000, 17000, 33000])
+        nb = rng.choice([1100, 2100, 4200, 5000, 5000, 9000] if tier == 'quick' else [4200, 9000, 17000, 33000])
         scn['bulk'] = [nb, rs.sub('bulk')]
         scn['design'], _ = netlist.bulk_design(*scn['bulk'])
         mode = 0.5
     elif mode < 0.12:
         # deep chain built in reverse: the worst case of the swap sorter
-        depth = rng.choice([5, 20, 60, 150, 150, 1100]) if tier == 'quick' else rng.choice([20, 100, 300, 600, 900, 1100, 2100, 4200])
+        depth = rng.choice([5, 20, 60, 150]) if tier == 'quick' else rng.choice([20, 100, 300, 600, 900, 1100, 2100, 4200])
         scn['design'] = chain_design(rng, depth)
     elif not scn.get('bulk'):
         n = rng.choice([3, 5, 8, 12, 20, 30]) if tier == 'quick' else rng.choice([5, 12, 30, 60, 100])
         scn['design'] = netlist.gen_design(rng, n, comb, hier_depth=rng.choice([0, 0, 1, 2, 3]),
                                            feedback=rng.choice([0, 0.1, 0.3]), seq_kinds=seqk,
-                                           seq_frac=rng.choice([0, 0.1, 0.25]), big=rng.random() < 0.03)
+                                           seq_frac=rng.choice([0, 0.1, 0.25]), big=rng.random() < 0.003)
     d = scn['design']
     if scn.get('bulk'):
         pass
@@ -103,7 +103,7 @@ def gen(rs, tier, index):
         # kept compact: design and order are regenerated from (n, seed) when the scenario is executed
         scn['order'] = None
         scn['design'] = None
-    if scn['mode'] == 'acyclic' and not scn.get('bulk') and rng.random() < 0.05:
+    if scn['mode'] == 'acyclic' and not scn.get('bulk') and rng.random() < 0.02:
         scn['deep'] = rng.choice([12, 16, 17, 24, 33, 40])     # one group of the design nested that many blocks deeper
     fr = rs.get('faults')
     scn['late'] = fr.randint(1, max(1, len(order) - 1)) if (fr.random() < 0.25 and len(order) > 1) else None
@@ -111,6 +111,8 @@ def gen(rs, tier, index):
     scn['perm'] = rs.sub('perm') if fr.random() < 0.4 else None
     # wires of the connected netlist are renamed / moved through the public Wire API before the simulator is asked for
     scn['rename'] = rs.sub('rename') if fr.random() < 0.2 else None
+    if scn.get('bulk'):
+        scn['rename'] = None        # (Wire.rename is linear in the number of wires of the owner: quadratic for thousands)
     # the simulator is obtained through its public constructor (as test/interactive/tb_Bits.py does) instead of getSimulator()
     scn['ctor'] = fr.random() < 0.2
     scn['observer'] = fr.random() < 0.25
